@@ -127,4 +127,144 @@ theorem rRun_sound (A : AEAD) (hA : ∀ k n m, (A.sealSeg k n m).length = m.leng
         exact hb b hr.symm
       · exact ih _ hinv' p b h
 
+/-! ## a clean end only at the true end (the reader that authenticates the last segment before EOF) -/
+
+/-- If the reader's LAST segment loads under the ideal AEAD, the plaintext length the reader derived from
+the (unauthenticated) ciphertext length is the true one. -/
+theorem ptLen_of_last_loaded (A : AEAD) (hA : ∀ k n m, (A.sealSeg k n m).length = m.length + tagLen) (css key : Nat) (pre : Bytes)
+    (segs : List Bytes) (keyOf : Bytes → Nat) (h56 : 56 < css) (lay : SegLayout css segs) (ideal : IdealFor A key pre segs)
+    (ct p : Bytes) (hl : loadSeg A keyOf css ct (numSegR css ct.length - 1) = some p) :
+    ptLenR css ct.length = segs.flatten.length := by
+  obtain ⟨hidx, _, hflag, hlen⟩ := load_ideal A hA key pre segs ideal keyOf css ct _ p hl
+  have hk : numSegR css ct.length - 1 + 1 = segs.length := by
+    have : (numSegR css ct.length - 1 == numSegR css ct.length - 1) = true := beq_self_eq_true _
+    rw [this] at hflag
+    exact of_decide_eq_true hflag.symm
+  have hk1 : 1 ≤ numSegR css ct.length := by
+    rcases Nat.eq_zero_or_pos (numSegR css ct.length) with h0 | h0
+    · rw [h0] at hk hlen
+      have hC : 0 < ct.length := by
+        unfold ctLen at hlen
+        simp only [if_true, hdrLen, tagLen] at hlen
+        omega
+      have : 0 < numSegR css ct.length := by
+        unfold numSegR
+        exact Nat.div_pos (by omega) (by omega)
+      omega
+    · exact h0
+  have hnum : numSegR css ct.length = segs.length := by omega
+  have hlast : ctLen css ct.length (segs.length - 1) = (segs.getD (segs.length - 1) []).length + tagLen := by
+    rw [show segs.length - 1 = numSegR css ct.length - 1 by omega]; exact hlen
+  have hks : 1 ≤ segs.length := List.length_pos_iff.2 lay.ne
+  have hC := length_of_geometry css segs.length _ ct.length h56 hks hnum hlast
+  have hr1 : segs.length = 1 ∨ 1 ≤ (segs.getD (segs.length - 1) []).length := by
+    by_cases h1 : segs.length = 1
+    · exact Or.inl h1
+    · exact Or.inr (lay.pos_of_multi (by omega) _ (by omega))
+  have hpt := (layout_inverse css segs.length _ h56 hks lay.last_le hr1).2
+  rw [← hC] at hpt
+  have hl1 : segs.length - 1 < segs.length := by omega
+  have htot : segs.flatten.length = ptStart css (segs.length - 1) + (segs.getD (segs.length - 1) []).length := by
+    have e : segs.flatten = (segs.take (segs.length - 1)).flatten ++ (segs.drop (segs.length - 1)).flatten := by
+      rw [← List.flatten_append, List.take_append_drop]
+    rw [e, List.length_append, take_flatten_len' css segs lay _ hl1, List.drop_eq_getElem_cons hl1]
+    have : segs.drop (segs.length - 1 + 1) = [] := List.drop_eq_nil_iff.2 (by omega)
+    simp [this, List.getD_eq_getElem?_getD, List.getElem?_eq_getElem hl1]
+  unfold ptLenOf at hpt
+  omega
+
+/-- `lastVerified` means what it says: the last segment HAS been authenticated -/
+def RInvV (css : Nat) (ct : Bytes) (segs : List Bytes) (s : RState) : Prop :=
+  RInv segs s ∧ (s.lastVerified = true → ptLenR css ct.length = segs.flatten.length)
+
+theorem rLoad_invV (A : AEAD) (hA : ∀ k n m, (A.sealSeg k n m).length = m.length + tagLen) (css key : Nat) (pre : Bytes)
+    (segs : List Bytes) (keyOf : Bytes → Nat) (h56 : 56 < css) (lay : SegLayout css segs) (ideal : IdealFor A key pre segs)
+    (ct : Bytes) (j : Nat) (s : RState) (hinv : RInvV css ct segs s) :
+    RInvV css ct segs (rLoad A keyOf true css ct j s).2 := by
+  refine ⟨(rLoad_inv A hA key pre segs ideal keyOf css ct j s hinv.1).1, ?_⟩
+  unfold rLoad
+  cases hl : loadSeg A keyOf css ct j with
+  | some seg =>
+    simp only [Bool.or_eq_true, beq_iff_eq]
+    rintro (hv | hj)
+    · exact hinv.2 hv
+    · rw [hj] at hl
+      exact ptLen_of_last_loaded A hA css key pre segs keyOf h56 lay ideal ct seg hl
+  | none =>
+    simp only
+    by_cases hc : (decide (ctLen css ct.length j < tagLen) || decide (j ≥ 4294967296)) = true
+    · rw [if_pos hc]; exact hinv.2
+    · rw [if_neg hc, if_pos trivial]; exact hinv.2
+
+/-- **one read: a clean end only at the true end** (last segment authenticated before EOF, buffer repair in). -/
+theorem rRead_eof_sound (A : AEAD) (hA : ∀ k n m, (A.sealSeg k n m).length = m.length + tagLen) (css key : Nat) (pre : Bytes)
+    (segs : List Bytes) (keyOf : Bytes → Nat) (h56 : 56 < css) (lay : SegLayout css segs) (ideal : IdealFor A key pre segs)
+    (ct : Bytes) (n : Nat) (s : RState) (hinv : RInvV css ct segs s) :
+    RInvV css ct segs (rRead A keyOf true true css ct n s).2 ∧
+      ((rRead A keyOf true true css ct n s).1 = .eof → segs.flatten.length ≤ s.pos) := by
+  have hsound := rRead_sound A hA css key pre segs keyOf h56 lay ideal true ct n s hinv.1
+  unfold rRead at hsound ⊢
+  by_cases hend : s.pos ≥ ptLenR css ct.length
+  · rw [if_pos hend] at hsound ⊢
+    by_cases hv : s.lastVerified = true
+    · simp only [hv, Bool.not_true, Bool.and_false, Bool.false_eq_true, if_false]
+      exact ⟨hinv, fun _ => by rw [← hinv.2 hv]; exact hend⟩
+    · have hv' : s.lastVerified = false := by simpa using hv
+      simp only [hv', Bool.not_false, Bool.and_true, if_true]
+      have hI := rLoad_invV A hA css key pre segs keyOf h56 lay ideal ct (numSegR css ct.length - 1) s hinv
+      refine ⟨hI, fun he => ?_⟩
+      -- the load of the last segment succeeded
+      unfold rLoad at he hI
+      cases hl : loadSeg A keyOf css ct (numSegR css ct.length - 1) with
+      | some seg =>
+        rw [← ptLen_of_last_loaded A hA css key pre segs keyOf h56 lay ideal ct seg hl]; exact hend
+      | none =>
+        rw [hl] at he
+        simp only at he
+        split at he <;> simp at he
+  · rw [if_neg hend] at hsound ⊢
+    simp only at hsound ⊢
+    refine ⟨⟨hsound.1, ?_⟩, fun he => ?_⟩
+    · -- `lastVerified` of the new state
+      by_cases hbuf : s.segIdx = some (segFor css s.pos)
+      · simp only [hbuf, if_true, Bool.not_true, Bool.false_eq_true, if_false]
+        exact hinv.2
+      · simp only [hbuf, if_false]
+        have hI := rLoad_invV A hA css key pre segs keyOf h56 lay ideal ct (segFor css s.pos) s hinv
+        by_cases hok : (rLoad A keyOf true css ct (segFor css s.pos) s).1 = true
+        · simp only [hok, Bool.not_true, Bool.false_eq_true, if_false]
+          exact hI.2
+        · have hok' : (rLoad A keyOf true css ct (segFor css s.pos) s).1 = false := by simpa using hok
+          simp only [hok', Bool.not_false, if_true]
+          exact hI.2
+    · -- inside the plaintext a read never answers EOF
+      by_cases hbuf : s.segIdx = some (segFor css s.pos)
+      · simp [hbuf] at he
+      · simp only [hbuf, if_false] at he
+        split at he <;> cases he
+
+/-- **a history ends cleanly only at the true end.** -/
+theorem rRun_eof_sound (A : AEAD) (hA : ∀ k n m, (A.sealSeg k n m).length = m.length + tagLen) (css key : Nat) (pre : Bytes)
+    (segs : List Bytes) (keyOf : Bytes → Nat) (h56 : 56 < css) (lay : SegLayout css segs) (ideal : IdealFor A key pre segs)
+    (ct : Bytes) :
+    ∀ (ops : List ROp) (s : RState), RInvV css ct segs s →
+      ∀ p, (p, RRes.eof) ∈ rRun A keyOf true true css ct ops s → segs.flatten.length ≤ p := by
+  intro ops
+  induction ops with
+  | nil => intro s _ p h; cases h
+  | cons op ops ih =>
+    intro s hinv p h
+    cases op with
+    | seek a =>
+      simp only [rRun] at h
+      exact ih { s with pos := a } ⟨fun j hj => hinv.1 j hj, hinv.2⟩ p h
+    | read n =>
+      simp only [rRun, List.mem_cons] at h
+      obtain ⟨hinv', he⟩ := rRead_eof_sound A hA css key pre segs keyOf h56 lay ideal ct n s hinv
+      rcases h with h | h
+      · simp only [Prod.mk.injEq] at h
+        obtain ⟨rfl, hr⟩ := h
+        exact he hr.symm
+      · exact ih _ hinv' p h
+
 end Pithos.Tink
